@@ -66,6 +66,8 @@ class RecMsg(httputil.HTTPMessageDelegate):
             self.conn.set_max_body_size(self.rec.override)
         if self.rec.btimeout is not None:
             self.conn.set_body_timeout(self.rec.btimeout)
+        if self.rec.respond == "early":
+            self.respond()              # the application answers before the request body is read
         return None
 
     def data_received(self, chunk):
@@ -73,16 +75,18 @@ class RecMsg(httputil.HTTPMessageDelegate):
         self.body += chunk
         if self.h is None and self not in self.rec.order:
             self.rec.order.append(self)
+        if self.rec.respond == "earlydata":
+            self.respond()
         return None
 
     def finish(self):
         self.end += "F"
         if self.h is None and self not in self.rec.order:
             self.rec.order.append(self)
-        if self.rec.respond == "sync":
-            self.respond()
-        else:
+        if self.rec.respond == "async":
             self.rec.waiting.append(self)
+        else:
+            self.respond()
 
     def on_connection_close(self):
         if self.refused and self.h is None:
@@ -92,6 +96,9 @@ class RecMsg(httputil.HTTPMessageDelegate):
             self.rec.order.append(self)
 
     def respond(self):
+        if getattr(self, "responded", False):
+            return
+        self.responded = True
         try:
             self.conn.write_headers(httputil.ResponseStartLine("HTTP/1.1", 200, "OK"),
                                     httputil.HTTPHeaders({"Content-Length": "0"}))
@@ -213,11 +220,24 @@ def make_app(wrap_holder, style):
                 return self.get
             raise AttributeError(name)
 
-    if style == "stream":
+    if style.startswith("stream"):
         @web.stream_request_body
         class Handler(Base):
+            def prepare(self):
+                if style == "stream-early":          # answers before the body is read
+                    self.set_header("Content-Length", "0")
+                    self.finish()
+
             def data_received(self, chunk):
                 self.streamed += len(chunk)
+                if style == "stream-earlydata" and not self._finished:
+                    self.set_header("Content-Length", "0")
+                    self.finish()
+
+            async def _answer(self):
+                if not self._finished:
+                    self.set_header("Content-Length", "0")
+                    self.finish()
     else:
         Handler = Base
     return web.Application([(r".*", Handler)])
@@ -538,7 +558,7 @@ def explain(traces, scratch=None):
         for t in traces:
             f.write(json.dumps(t) + "\n")
     sd = spec_dir(d)
-    r = tlc.run(sd, "Explain_HttpReader", os.path.join(sd, "Explain_HttpReader.cfg"), workers=1, timeout=600,
+    r = tlc.run(sd, "Explain_HttpReader", os.path.join(sd, "Explain_HttpReader.cfg"), workers=1, timeout=3000,
                 env={"TRACE_FILE": fn}, deadlock=False)
     out = {}
     for m in re.finditer(r'<<"EXP", (\d+), (\d+), "((?:[^"\\]|\\.)*)">>', r.out):
